@@ -11,7 +11,15 @@ from spec import prim_bits
 VFD_MOD = r'''
 #[allow(dead_code)]
 pub mod vfd {
+    use diplomat_runtime::DiplomatWrite;
     pub struct Cx { pub o: Vec<*mut u8> }
+    extern "C" {
+        pub fn diplomat_buffer_write_get_bytes(this: &DiplomatWrite) -> *mut u8;
+        pub fn diplomat_buffer_write_len(this: &DiplomatWrite) -> usize;
+        pub fn diplomat_simple_write(buf: *mut u8, buf_size: usize) -> DiplomatWrite;
+        pub fn diplomat_buffer_write_create(cap: usize) -> *mut DiplomatWrite;
+        pub fn diplomat_buffer_write_destroy(this: *mut DiplomatWrite);
+    }
     #[repr(C)] #[derive(Clone, Copy)] pub struct Raw<T> { pub p: *const T, pub n: usize }
     /// what a foreign caller does: hand over the bytes {pointer, length}
     pub unsafe fn view<T, S>(p: *const T, n: usize) -> S {
@@ -147,12 +155,12 @@ class RsEmitter:
         if k == "write":
             w = self.fresh("w")
             if v["mode"] == "buffer":
-                pre.append("let %s = diplomat_runtime::diplomat_buffer_write_create(%d);" % (w, v["cap"]))
+                pre.append("let %s = vfd::diplomat_buffer_write_create(%d);" % (w, v["cap"]))
                 post.append(("write_buffer", w))
                 return "&mut *%s" % w
             pre.append("let mut %s_buf: Vec<u8> = vec![0x7eu8; %d];" % (w, v["size"]))
             pre.append("let %s_p = %s_buf.as_mut_ptr();" % (w, w))
-            pre.append("let mut %s_w = diplomat_runtime::diplomat_simple_write(%s_p, %d);" % (w, w, v["size"]))
+            pre.append("let mut %s_w = vfd::diplomat_simple_write(%s_p, %d);" % (w, w, v["size"]))
             post.append(("write_fixed", w, v["size"]))
             return "&mut %s_w" % w
         raise Unsupported(t)
@@ -289,7 +297,14 @@ class RsEmitter:
         elif k == "opt":
             if not self.has_box(t):
                 return
-            raise Unsupported(t)
+            v = self.fresh("oo")
+            out.append("let %s = %s.into_option();" % (v, e))
+            inner = []
+            if retv is not None:
+                self.adopt_stmts("x_", t[1], retv[1], inner)
+            else:
+                inner.append("let _ = x_;")
+            out.append("match %s { Some(x_) => { %s } None => {} }" % (v, " ".join(inner)))
         elif k == "result":
             if not self.has_box(t):
                 return
@@ -345,13 +360,13 @@ class RsEmitter:
         for p in post:
             if p[0] == "write_buffer":
                 w = p[1]
-                out.append("{ let b_ = diplomat_runtime::diplomat_buffer_write_get_bytes(&*%s); let l_ = diplomat_runtime::diplomat_buffer_write_len(&*%s); "
+                out.append("{ let b_ = vfd::diplomat_buffer_write_get_bytes(&*%s); let l_ = vfd::diplomat_buffer_write_len(&*%s); "
                            "if b_.is_null() { crate::vf::log(\"WR NULL failed=1\".to_string()); } else { "
                            "crate::vf::log(format!(\"WR {} failed=0\", crate::vf::hexs(vfd::bytes_of(vfd::Raw { p: b_ as *const u8, n: l_ })))); } "
-                           "diplomat_runtime::diplomat_buffer_write_destroy(%s); }" % (w, w, w))
+                           "vfd::diplomat_buffer_write_destroy(%s); }" % (w, w, w))
             elif p[0] == "write_fixed":
                 w, size = p[1], p[2]
-                out.append("{ let w_: [usize; 7] = core::mem::transmute_copy(&%s_w); let len_ = w_[2]; let failed_ = (w_[4] & 0xff) as u8; "
+                out.append("{ let b_ = &%s_w as *const diplomat_runtime::DiplomatWrite as *const u8; let len_ = *(b_.add(2 * core::mem::size_of::<usize>()) as *const usize); let failed_ = *b_.add(4 * core::mem::size_of::<usize>()); "
                            "let nul_ = if len_ < %d && *%s_p.add(len_) == 0 { 1 } else { 0 }; "
                            "crate::vf::log(format!(\"WR {} failed={} nul={}\", crate::vf::hexs(vfd::bytes_of(vfd::Raw { p: %s_p as *const u8, n: len_ })), failed_, nul_)); }"
                            % (w, size, w, w))
